@@ -185,6 +185,17 @@ class _SymJD:
         return (self.v - jd0) * 24 * 3600
 
 
+def _time_cuts(mod):
+    """the exact-real cuts for whichever of the repository's two float subclasses a module binds: a JulianDate is the wrapper above, a
+    ScenarioTime is the real number itself (both classes only add the conversion one-liners to float)"""
+    out = {}
+    if "JulianDate" in mod.__dict__:
+        out["JulianDate"] = _SymJD
+    if "ScenarioTime" in mod.__dict__:
+        out["ScenarioTime"] = lambda v: v
+    return out
+
+
 class _EventLog:
     def __init__(self):
         self.records = []
@@ -400,7 +411,7 @@ class _World:
             shadow(SP, empty_like=_sym_empty_like, JulianDate=lambda x: x, julianDateToDatetime=lambda jd: None, ReductionParams=_Tok,
                    _getRotationMatrix=lambda jd, red: np.eye(3), nonSphericalAcceleration=lambda *args: g, Sun=_Tok, Earth=_Tok, norm=lambda v: SReal(1),
                    checkEarthCollision=lambda r: None),
-            shadow(FT, **ft), shadow(FB, JulianDate=_SymJD), shadow(FM, JulianDate=_SymJD),
+            shadow(FT, **ft), shadow(FB, **_time_cuts(FB)), shadow(FM, **_time_cuts(FM)),
         ] + _closeness_shadows(_analysed_modules())
         for c in self.cms:
             c.__enter__()
@@ -950,11 +961,14 @@ def o2_callables(rep, tier):
             goal = z3.And(z3.BoolVal(bool(cls_ok and nq == 1 and len(o) == 6)), *[o[c] == (want[c].t if isinstance(want[c], SReal) else rv(want[c])) for c in range(3)],
                           *[o[3 + c] == 0 for c in range(3)], ev.start_time.t == ts.t, ev.end_time.t == te.t, z3.BoolVal(ev.agent_id == 7))
 
-            def inputs(m, kind=kind, frame=frame, mtype=mtype, acc=acc, state=state):
+            def inputs(m, kind=kind, frame=frame, mtype=mtype, acc=acc, state=state, ts=ts, te=te):
                 st = [mfloat(m, x) for x in state]
                 if abs(st[3]) + abs(st[4]) + abs(st[5]) < 1e-9 or np.linalg.norm(np.cross(st[:3], st[3:])) < 1e-9:
                     st = [7000.0, 100.0, st[2] if abs(st[2]) > 1e-9 else -50.0, 0.3, 7.4, 0.9]  # a state with a defined NTW frame, same sign of z
-                return {"kind": kind, "frame": frame, "mtype": mtype, "acc": [mfloat(m, x) for x in acc], "state": st, "ts": 120.0, "te": 300.5}
+                t1, t2 = mfloat(m, ts), mfloat(m, te)
+                if not (0 <= t1 < t2 <= 1e6):  # the callable obligations leave the times free: any interval will do
+                    t1, t2 = 120.0, 300.5
+                return {"kind": kind, "frame": frame, "mtype": mtype, "acc": [mfloat(m, x) for x in acc], "state": st, "ts": t1, "te": t2}
 
             rep.prove(f"{tag}#{i}", goal, r.constraints, inputs=inputs, replay=replay_callables,
                       sample=f"{tag}: handleEvent queues one {'ScheduledFiniteBurn' if kind == 'burn' else 'ScheduledFiniteManeuver'} over [(start_jd-jd0)*86400, (end_jd-jd0)*86400] "
